@@ -108,6 +108,16 @@ type Target struct {
 	// event adds it (an Add landing while another target's dial to the shared
 	// address is pending).
 	Late bool `json:"late,omitempty"`
+	// The rest of the target's configuration (config.go lists what the manager does
+	// with each field of *tpb.Target).
+	Hops       int        `json:"hops,omitempty"`        // further hops behind the next hop of the first address line
+	More       []AddrLine `json:"more,omitempty"`        // further address lines (part real: possibly other next hops)
+	Dialer     int        `json:"dialer,omitempty"`      // 0 = default dialer, k = k-th named dialer, -1 = a name no dialer is registered under
+	Cred       string     `json:"cred,omitempty"`        // credKinds
+	CredSteps  []string   `json:"cred_steps,omitempty"`  // outcomes of the credentials lookups (Cred == "id"): ok | fail | empty; ok afterwards
+	MetaKeys   []string   `json:"meta_keys,omitempty"`   // further keys of Target.meta (metaKeyPool)
+	SameAs     int        `json:"same_as,omitempty"`     // 1 + index of an earlier target whose *tpb.Target OBJECT this target is added with
+	FreshProto bool       `json:"fresh_proto,omitempty"` // every Add gets a copy of the object instead of the object again
 }
 
 // Event is one external call made by the harness goroutine.
@@ -141,6 +151,11 @@ type Scenario struct {
 	// k-th dial to an address behaves as the k-th step; ok at once afterwards).
 	Real  bool         `json:"real,omitempty"`
 	Dials [][]DialStep `json:"dials,omitempty"`
+	// NamedDials[k-1][address index]: the script of the k-th NAMED dialer (part
+	// real; len = number of named dialers registered with the connection manager).
+	NamedDials [][][]DialStep `json:"named_dials,omitempty"`
+	// NoCredClient: Config.Credentials stays nil (targets with a password id then fail every attempt).
+	NoCredClient bool `json:"no_cred_client,omitempty"`
 }
 
 const ghost = "ghost"
@@ -216,6 +231,9 @@ func (sc *Scenario) validate() error {
 		if scriptLen(tg.Attempts) > maxScriptLen {
 			return fmt.Errorf("target %d: the script covers %d attempts (> %d)", i, scriptLen(tg.Attempts), maxScriptLen)
 		}
+	}
+	if verr := sc.validateConfig(); verr != nil {
+		return verr
 	}
 	if verr := sc.validateReal(); verr != nil {
 		return verr
@@ -363,8 +381,15 @@ func genScenario(t *rapid.T) *Scenario {
 		tg.Meta = rapid.SampledFrom(metas).Draw(t, "meta")
 		tg.Attempts = rapid.SliceOfN(rapid.Custom(genAttempt), 0, 6).Draw(t, "attempts")
 		tg.Errs = rapid.SampledFrom(errKindsGen).Draw(t, "errs")
+		// the configuration dimension (config.go); the ConnectionManager double does
+		// not dial, the dialer name is only checked to arrive
+		if !genSameAs(t, sc, &tg, i) {
+			tg.Dialer = rapid.SampledFrom([]int{0, 0, 0, 1, 2, unregisteredDialer}).Draw(t, "dialer")
+			genConfig(t, sc, &tg, i, false)
+		}
 		sc.Targets = append(sc.Targets, tg)
 	}
+	sc.NoCredClient = rapid.IntRange(0, 19).Draw(t, "no-cred-client") == 0
 	sc.Events = rapid.SliceOfN(rapid.Custom(func(t *rapid.T) Event {
 		return Event{
 			AfterMs: rapid.SampledFrom(eventGaps).Draw(t, "after"),
